@@ -29,6 +29,7 @@ pub fn registry() -> &'static [Check] {
 pub fn sub(args: &[String]) -> i32 {
     match args.first().map(String::as_str) {
         Some("probe") => probe(&args[1]),
+        Some("hprobe") => hprobe(&args[1]),
         _ => {
             eprintln!("unknown sub command {args:?}");
             2
@@ -74,6 +75,25 @@ fn probe(path: &str) -> i32 {
     for w in [2usize, 3, 4] {
         let r = run_text(&ptxt, &db, &RunOpts { workers: Some(w), ..Default::default() });
         println!("workers={w}: {}", match r { Ok(a) => rows_json(&a.rows).to_string(), Err(e) => format!("ERR {e}") });
+    }
+    0
+}
+
+/// `ilv sub hprobe <file>`: feed blocks of a file (separated by lines `----`) to a fresh Handler,
+/// one `execute_program` call per block, and print what comes back.
+fn hprobe(path: &str) -> i32 {
+    let text = std::fs::read_to_string(path).expect("read");
+    let scratch = crate::store::Scratch::new("hprobe");
+    let h = crate::hnd::H::open(&scratch.path, &crate::store::StoreOpts::default()).expect("handler");
+    for block in text.split("\n----\n") {
+        let block = block.trim_end();
+        println!(">>> {}", block.replace('\n', "\n    "));
+        match h.exec("default", block) {
+            Ok(r) => {
+                println!("    OK rows={:?} total={} truncated={} switched={:?} schema={:?}", crate::hnd::rows_str(&r), r.total_count, r.truncated, r.switched_kg, r.schema.iter().map(|c| c.name.clone()).collect::<Vec<_>>());
+            }
+            Err(e) => println!("    ERR {e}"),
+        }
     }
     0
 }
